@@ -80,6 +80,11 @@ pub fn scene(k: usize) -> Scene {
             s.clouds.push(cloud("c2", p, 3, 9));
             s.images.push(img("i0", 2, false, 5, 3));
             s.images.push(img("i1", 4, true, 33, 4));
+            // times that are exactly zero: producers may write them as empty elements
+            s.creation = Some(DateTime { gps: 0.0, atomic: false });
+            s.clouds[1].meta.acq_start = Some(DateTime { gps: 0.0, atomic: true });
+            s.clouds[1].meta.acq_end = Some(DateTime { gps: -0.0, atomic: false });
+            s.images[1].acquisition = Some(DateTime { gps: 0.0, atomic: false });
             s
         }
         6 => {
